@@ -260,13 +260,19 @@ def tokenise_sinusoid(text, z, p, w, sin, deg, hertz, m1, e1):
     if phtxt[0] not in '+-':
         return None
     osgn = 1 if phtxt[0] == '+' else -1
-    val = abs(math.degrees(phase)) if deg else abs(phase)
     pp = parse_float_text(phtxt[1:], '°' if deg else '', None)
     if pp is None or abs(phase) <= 1e-4:
         return None
-    pm, pe = bracket(val)
+    # the phase of a sinusoid is defined modulo a full turn: judge against the representative nearest to the displayed one
+    shown = osgn * pp['digits'] * 10.0 ** (pp['oexp'] - pp['ndec'])
+    turn = 360.0 if deg else 2 * math.pi
+    ph = math.degrees(phase) if deg else phase
+    ph += turn * round((shown - ph) / turn)
+    if abs(ph) < 1e-12:
+        return None
+    pm, pe = bracket(abs(ph))
     pp['osgn'] = osgn * pp['osgn']
-    evs.append(dict(kind='float', m=pm, e10=pe, sgn=1 if phase > 0 else -1, p=p, M=16, **pp))
+    evs.append(dict(kind='float', m=pm, e10=pe, sgn=1 if ph > 0 else -1, p=p, M=16, **pp))
     return evs
 
 
@@ -339,6 +345,9 @@ def tokenise_complex(text, mode, unit, table, z, p, m1, e1, sr, m2, e2, si):
             return None
         nd = len(s.split('.')[1]) if '.' in s else 0
         true = math.degrees(cmath.phase(z)) if deg else cmath.phase(z)
+        half_turn = 180.0 if deg else math.pi
+        if abs(abs(true) - half_turn) < 1e-6 * half_turn:        # +pi and -pi are the same angle
+            true = math.copysign(abs(true), -1.0 if s.startswith('-') else 1.0)
         evs.append(dict(kind='angle', digits=int(round(abs(val) * 10 ** nd)), ndec=nd, osgn=-1 if s.startswith('-') else 1, a6=int(round(true * 1e6)),
                         m=1, e10=0, sgn=1, p=p, M=M, inf=False, oexp=0))
     return evs
